@@ -67,6 +67,7 @@ type Oblig struct {
 	Pos    token.Position
 	Goal   string
 	Detail string
+	Syntactic bool
 }
 
 type Deferred struct {
@@ -195,6 +196,14 @@ func (st *State) assume(t string) {
 		return
 	}
 	st.items = append(st.items, Item{Kind: ItAssert, Text: t})
+	// remember the assumed facts (conjunct-wise) so that a goal that is textually one of them is discharged syntactically
+	if len(t) > 40 {
+		for _, c := range splitAnd(t) {
+			if len(c) > 40 {
+				st.typed["fact:"+c] = true
+			}
+		}
+	}
 }
 
 func (st *State) declare(name string, s Sort) {
